@@ -52,6 +52,28 @@ def callee_src(f):
     return s if f[0] in ("var", "call") or s.startswith("(") else "(" + s + ")"
 
 
+def cpat_src(p):
+    k = p[0]
+    if k == "name":
+        return p[1]
+    if k == "int":
+        return str(p[1])
+    if k == "str":
+        return '"' + p[1] + '"'
+    if k == "wild":
+        return "_" if len(p) == 1 else "_: " + p[1]
+    return ", ".join(p[1:])
+
+
+def cpat_sx(p):
+    k = p[0]
+    if k == "str":
+        return f'(str "{p[1]}")'
+    if k == "names":
+        return "(names " + " ".join(p[1:]) + ")"
+    return "(" + " ".join(str(x) for x in p) + ")"
+
+
 def src(e):
     """Noulith text of an AST node; every compound form brings its own parentheses"""
     t = e[0]
@@ -108,6 +130,8 @@ def src(e):
         return "(return" + (" " + src(e[1]) if e[1] is not None else "") + ")"
     if t == "try":
         return f"(try {src(e[1])} catch {e[2]} -> {src(e[3])})"
+    if t == "tryp":
+        return f"(try {src(e[1])} catch {cpat_src(e[2])} -> {src(e[3])})"
     if t == "throw":
         return f"(throw {src(e[1])})"
     if t in ("and", "or", "coal"):
@@ -190,6 +214,8 @@ def sx(e):
         return "(ret" + (" " + sx(e[1]) if e[1] is not None else "") + ")"
     if t == "try":
         return f"(try {sx(e[1])} {e[2]} {sx(e[3])})"
+    if t == "tryp":
+        return f"(tryp {sx(e[1])} {cpat_sx(e[2])} {sx(e[3])})"
     if t == "throw":
         return f"(throw {sx(e[1])})"
     if t in ("and", "or", "coal"):
@@ -246,7 +272,7 @@ def children(e):
     elif t == "ret":
         if e[1] is not None:
             out.append(((1,), e[1]))
-    elif t == "try":
+    elif t in ("try", "tryp"):
         out += [((1,), e[1]), ((3,), e[3])]
     elif t in ("throw", "eval"):
         out.append(((1,), e[1]))
@@ -302,6 +328,9 @@ def features(e, acc=None):
             acc["param_" + p[0]] = acc.get("param_" + p[0], 0) + 1
     if e[0] == "prim":
         acc["prim_" + e[1]] = acc.get("prim_" + e[1], 0) + 1
+    if e[0] == "tryp":
+        k = "catch_" + e[2][0] + ("_typed" if e[2][0] == "wild" and len(e[2]) > 1 else "")
+        acc[k] = acc.get(k, 0) + 1
     for _, c in children(e):
         features(c, acc)
     return acc
@@ -432,8 +461,10 @@ class Gen:
                 return self.block("i", d)
             if c < 0.95:
                 return self.switch_expr(d, "i")
-            if c < 0.98:
+            if c < 0.97:
                 return ("try", self.risky(d + 1), "e", self.in_scope({"e": "a"}, lambda: self.expr("i", d + 1)))
+            if c < 0.985:
+                return self.selective_try(d, "i")
             return self.loop_expr(d)
         if kind == "l":
             if c < 0.25:
@@ -601,6 +632,60 @@ class Gen:
                 return SEQ(("if", self.expr("i", d + 1), j, None), self.expr("i", d + 1)) if r.random() < 0.5 else j
         return self.block("a", d)
 
+    def thrown(self, d):
+        """a value worth throwing: ints, strings, lists (selective patterns tell them apart)"""
+        r = self.r
+        c = r.random()
+        if c < 0.45:
+            return I(r.choice([0, 1, 2, 5])) if r.random() < 0.7 else self.expr("i", d + 1)
+        if c < 0.65:
+            return ("str", r.choice(["s", "ab", "err"]))
+        if c < 0.9:
+            return ("list", [I(r.randint(0, 5)) for _ in range(r.randint(0, 3))])
+        return self.expr("a", d + 1)
+
+    def cpat(self):
+        """(pattern, names it binds)"""
+        r = self.r
+        c = r.random()
+        if c < 0.3:
+            return ("int", r.choice([0, 1, 2, 5])), {}
+        if c < 0.45:
+            return ("str", r.choice(["s", "ab", "err"])), {}
+        if c < 0.75:
+            return ("wild", r.choice(["int", "str", "list"])), {}
+        if c < 0.8:
+            return ("wild",), {}
+        xs = r.sample(["a", "b", "c"], r.choice([1, 2, 2, 3])) if r.random() < 0.93 else ["a", "a"]
+        if len(xs) == 1:
+            xs = xs + [r.choice(["x", "y"])]
+        return ("names", *xs), {x: "i" for x in xs}
+
+    def selective_try(self, d, kind="a"):
+        """try with a selective catch, often nested in an observing / differently selective outer catch"""
+        r = self.r
+        self.spend(3)
+        body = ("throw", self.thrown(d + 1))
+        c = r.random()
+        if c < 0.3:
+            body = SEQ(P("print", I(r.randint(0, 9))), ("if", self.expr("i", d + 1), body, None), self.expr(kind, d + 1))
+        elif c < 0.45:
+            body = self.risky(d + 1)
+        elif c < 0.6:
+            fs = [x for x in self.visible("f")]
+            if fs:
+                body = SEQ(body) if False else ("call", ("lam", [], body), [])
+        p, binds = self.cpat()
+        h = self.in_scope(binds, lambda: SEQ(P("print", I(r.randint(10, 19))), self.expr(kind, d + 1)) if r.random() < 0.5 else self.expr(kind, d + 1))
+        inner = ("tryp", body, p, h)
+        c = r.random()
+        if c < 0.45:
+            return ("try", inner, "e", self.in_scope({"e": "a"}, lambda: ("list", [V("e")]) if r.random() < 0.7 else self.expr(kind, d + 1)))
+        if c < 0.7:
+            p2, b2 = self.cpat()
+            return ("try", ("tryp", inner, p2, self.in_scope(b2, lambda: self.expr(kind, d + 1))), "e", ("list", [V("e"), V("e")]))
+        return inner
+
     def jump(self, d):
         r = self.r
         c = r.random()
@@ -760,9 +845,11 @@ class Gen:
         if c < 0.66:
             cond = self.expr("i", d + 1)
             return ("if", cond, self.stmt(d + 1), self.stmt(d + 1) if r.random() < 0.4 else None)
-        if c < 0.74:
+        if c < 0.70:
             h = self.in_scope({"e": "a"}, lambda: self.stmt(d + 1) if r.random() < 0.5 else self.expr("a", d + 1))
             return ("try", self.risky(d + 1), "e", h)
+        if c < 0.74:
+            return self.selective_try(d)
         if c < 0.78:
             return self.call(d)
         if c < 0.81:
@@ -907,7 +994,8 @@ def small_programs(maxsize):
                 for eb in ex(b):
                     out += [SEQ(ea, eb), ("while", ea, eb), ("and", ea, eb), ("try", ea, "x", eb), ("call", ea, [eb]),
                             ("for", [("it", "x", ("list", [ea]))], ("yield", eb)), ("for", [("it", "x", ("list", [ea]))], ("do", eb)),
-                            ("if", ea, eb, None), P("add", ea, eb)]
+                            ("if", ea, eb, None), P("add", ea, eb),
+                            ("tryp", ea, ("int", 1), eb), ("tryp", ea, ("int", 2), eb)]
         return out
     res = []
     for n in range(1, maxsize + 1):
@@ -1058,7 +1146,7 @@ def report(ctx, rows, runner):
 
 def nontrivial(e, feats):
     """a program is non-trivial when it has a lambda, a loop or a try, i.e. something a scope or a signal can go wrong in"""
-    return any(k in feats for k in ("lam", "for", "while", "try", "switch"))
+    return any(k in feats for k in ("lam", "for", "while", "try", "tryp", "switch"))
 
 
 def run(ctx):
@@ -1102,7 +1190,7 @@ def run(ctx):
         "distinct_nontrivial": len(distinct),
         "rule": "generated programs (grammar-based, <= ~25 generator nodes, nesting <= 5 below idioms) on which both sides finished inside the vocabulary and agreed; "
                 "non-trivial = contains a lambda, a loop or a try; distinct by program text. The small-program sweep enumerates every "
-                f"program of <= {ctx.n(4, 5)} nodes over a reduced vocabulary (x, f, 1, :=, =, lambda, call, seq, while, and, try, for-yield, for-do, if, +, throw, break, break break, continue, break continue, return).",
+                f"program of <= {ctx.n(4, 5)} nodes over a reduced vocabulary (x, f, 1, :=, =, lambda, call, seq, while, and, try, for-yield, for-do, try with the selective patterns `1` and `2`, if, +, throw, break, break break, continue, break continue, return).",
         "verdicts": verdicts,
         "constructs_in_agreeing_programs": dict(sorted(feats_total.items())),
         "size_histogram_nodes": sizes,
@@ -1120,7 +1208,7 @@ def tuplify(x):
     if isinstance(x, list):
         if x and isinstance(x[0], str) and x[0] in ("null", "int", "str", "list", "var", "seq", "decl", "asg", "decll", "asgl", "if", "while",
                                                      "for", "break", "cont", "ret", "try", "throw", "and", "or", "coal", "lam", "call", "prim",
-                                                     "eval", "splat", "it", "item", "let", "guard", "do", "yield", "yieldkv", "p", "def", "switch", "lit", "bind", "wild", "yieldinto", "fn"):
+                                                     "eval", "splat", "it", "item", "let", "guard", "do", "yield", "yieldkv", "p", "def", "switch", "lit", "bind", "wild", "yieldinto", "fn", "tryp", "name", "names"):
             return tuple(tuplify(y) for y in x)
         return [tuplify(y) for y in x]
     return x
